@@ -72,7 +72,10 @@ pub fn check(c: &Case, stats: &mut Stats) -> CheckResult {
         &c.facts
     };
     let expected = restrict_to_version(facts, v);
-    let bytes = encode(facts, v);
+    // writer style of the parent / term-list records (0 = what as_bytes writes), see `encode_styled`
+    let style = (c.suffix.len() % 4) as u8;
+    let bytes = encode_styled(facts, v, style);
+    stats.count(&format!("writer-style-{style}"), 1);
     // ---- Oracle A: the file decodes to exactly the ontology it describes
     let ont = match decode(&bytes) {
         Decoded::Ok(o) => *o,
